@@ -588,6 +588,16 @@ class Parser:
             return ("param", self.nparams - 1)
         if t == ("kw", "NULL"):
             return ("const", None)
+        if t == ("kw", "CASE"):
+            base = None if self.at_kw("WHEN") else self.expr()
+            arms = []
+            while self.accept_kw("WHEN"):
+                w = self.expr()
+                self.expect_kw("THEN")
+                arms.append((w, self.expr()))
+            other = self.expr() if self.accept_kw("ELSE") else ("const", None)
+            self.expect_kw("END")
+            return ("case", base, arms, other)
         if t == ("op", "("):
             if self.at_kw("SELECT"):
                 sub = self.select()
@@ -1089,6 +1099,16 @@ class Exec:
             return self.params[e[1]]
         if k == "col":
             return self.col(scopes, e[1], e[2])
+        if k == "case":
+            # the first arm whose WHEN holds (a NULL comparison does not hold)
+            base = self.ev(e[1], scopes) if e[1] is not None else None
+            for w, r in e[2]:
+                cond = self.ev(w, scopes)
+                if e[1] is not None:
+                    cond = None if (base is None or cond is None) else cmp_values("=", base, cond)
+                if cond is not None and truth(cond):
+                    return self.ev(r, scopes)
+            return self.ev(e[3], scopes)
         if k == "cmp":
             l, r = self.ev(e[2], scopes), self.ev(e[3], scopes)
             if type(l) is str and type(r) is str and self.nocase(e[2], scopes) or type(l) is str and type(r) is str and self.nocase(e[3], scopes):
